@@ -67,7 +67,8 @@ Qed.
 
 Theorem spec_implies_static : forall ops observed, spec_C19 ops observed = true -> forallb obs_static_ok observed = true.
 Proof.
-  intros ops observed H. unfold spec_C19 in H. apply andb_true_iff in H. destruct H as (_ & H).
+  intros ops observed H. unfold spec_C19 in H. apply andb_true_iff in H. destruct H as (H & _).
+  apply andb_true_iff in H. destruct H as (_ & H).
   eapply spec_from_static; eauto.
 Qed.
 
